@@ -219,7 +219,17 @@ def F12():
     )
 
 
-ALL = dict(F10=F10, F12=F12, F1=F1, F2=F2, F3=F3, F4=F4, F5=F5, F6=F6, F7=F7, F8=F8, F9=F9, F14=F14)
+def F17():
+    from armi.reactor import composites
+
+    a, b, x = composites.Composite("A"), composites.Composite("B"), composites.Composite("x")
+    a.add(x)
+    b.add(x)
+    ok = not (x in a and x.parent is b)
+    return ok, f"A.add(x); B.add(x): x in A={x in a}, x in B={x in b}, x.parent is B={x.parent is b} (two parents list x, only one is its parent)"
+
+
+ALL = dict(F10=F10, F12=F12, F17=F17, F1=F1, F2=F2, F3=F3, F4=F4, F5=F5, F6=F6, F7=F7, F8=F8, F9=F9, F14=F14)
 
 if __name__ == "__main__":
     sys.path.insert(0, os.getcwd())
